@@ -5,6 +5,8 @@ package main
 // constant tables (local or package-level composite literals walked by a loop).
 
 import (
+	"fmt"
+	"os"
 	"go/ast"
 	"go/constant"
 	"go/token"
@@ -313,6 +315,9 @@ func (c *Ctx) constsCount(v ssa.Value, depth int) map[string]int {
 			}
 			sites := callSitesOf(c, fn)
 			if len(sites) == 0 || idx < 0 {
+				if os.Getenv("QVET_DEBUG_CONSTS") != "" {
+					fmt.Fprintf(os.Stderr, "constsCount: no call sites of %v (param %v)\n", fn, x)
+				}
 				return one("?")
 			}
 			out := map[string]int{}
@@ -332,6 +337,10 @@ func (c *Ctx) constsCount(v ssa.Value, depth int) map[string]int {
 			if m := c.rowFieldCount(base, path); m != nil {
 				return m
 			}
+		}
+		if os.Getenv("QVET_DEBUG_CONSTS") != "" {
+			b, pth := accessPath(v)
+			fmt.Fprintf(os.Stderr, "constsCount ? at %T %v in %v; base %T %v path %v\n", v, v, func() string { if i, ok := v.(ssa.Instruction); ok && i.Parent() != nil { return i.Parent().String() }; return "" }(), b, b, pth)
 		}
 		return one("?")
 	}
@@ -539,6 +548,9 @@ func sameSym(a, b sym) bool {
 // constsOfSym: constsCount for a symbolic value.
 func (c *Ctx) constsOfSym(a sym) map[string]int {
 	if !a.ok() {
+		if os.Getenv("QVET_DEBUG_CONSTS") != "" {
+			fmt.Fprintf(os.Stderr, "constsOfSym: not ok %v\n", a)
+		}
 		return map[string]int{"?": 1}
 	}
 	if len(a.path) == 0 {
